@@ -624,6 +624,22 @@ def call_method(ip, obj, fam, name, args, kwargs, lineno):
         raise Unsupported("array method %s" % name)
     if fam == "arr2":
         a = obj
+        if name == "dot":
+            # (n, k) matrix . vector of concrete length k: row-wise dot product.  EXACT.
+            v = args[0]
+            k = conc(a.cols)
+            if not (isinstance(v, SArr) and isinstance(k, int) and conc(v.length) == k):
+                raise Unsupported("dot with a vector of symbolic length")
+            M.use("ndarray.dot (matrix . vector of concrete length)")
+            f2, fv = a.snapshot2(), v.snapshot()
+            def at(i):
+                r = z3.IntVal(0)
+                for j in range(k):
+                    r = r + I(f2(i, j)) * I(fv(j))
+                return r
+            return SArr.fresh(a.rows, at)
+        if name == "data":
+            return a
         if name == "ravel":
             return ravel2(ip, a, lineno)
         if name == "copy":
